@@ -1114,7 +1114,7 @@ async fn shutdown_full_mailbox(_a: &Value) -> Value {
 }
 
 /// C12: RPCs abandoned while the serving side's whole service applies back-pressure (a capacity-1 service held by one long request that is NOT abandoned).
-/// The listener grants 4 concurrent streams; 12 RPCs are each given up after 100 ms.  While the service is held none of them may be handed to it later
+/// The listener grants 4 concurrent streams; 12 RPCs are issued at once and all given up after a second.  While the service is held none of them may be handed to it later
 /// (an abandoned request must not be served after the fact), and once the holder is released a fresh RPC is served at once.
 async fn abandoned_behind_backpressure(_a: &Value) -> Value {
     use std::sync::atomic::{AtomicUsize, Ordering};
@@ -1142,11 +1142,12 @@ async fn abandoned_behind_backpressure(_a: &Value) -> Value {
     let cl = client.clone();
     let held = tokio::spawn(async move { cl.rpc(sid, Request::new(Bytes::from_static(b"hold"))).await.map(|r| r.into_body().to_vec()) });
     let holder_started = tokio::time::timeout(Duration::from_secs(5), started.notified()).await.is_ok();
+    // 12 RPCs issued at once and all given up a second later (long enough for those that got a stream to have reached the serving side even on a loaded machine)
+    let tasks: Vec<_> = (0..12).map(|_| { let c = client.clone(); tokio::spawn(async move { c.rpc(sid, Request::new(Bytes::from_static(b"abandoned"))).await.is_ok() }) }).collect();
+    tokio::time::sleep(Duration::from_millis(1000)).await;
     let mut gave_up = 0;
-    for _ in 0..12 {
-        if tokio::time::timeout(Duration::from_millis(100), client.rpc(sid, Request::new(Bytes::from_static(b"abandoned")))).await.is_err() { gave_up += 1; }
-    }
-    tokio::time::sleep(Duration::from_millis(500)).await;
+    for t in tasks { if !t.is_finished() { gave_up += 1; } t.abort(); }
+    tokio::time::sleep(Duration::from_millis(700)).await;
     release.notify_one();
     let held_ok = matches!(tokio::time::timeout(Duration::from_secs(5), held).await, Ok(Ok(Ok(ref b))) if b == b"hold");
     let t0 = std::time::Instant::now();
